@@ -8,7 +8,7 @@ CHECKS = {
  "C17": dict(
    technique="exhaustive data walk over the bundled JSON registries (own loader) + abstract evaluation of registered algorithms on undefined fields",
    text="Every clause of C17 is decided for every country (126) and every bank entry (29 451) of whatever data the tree bundles, on every run; "
-        "no sampling. Static: the JSON files and the checksum package are read as data / source, the library is never imported.",
+        "no sampling; every listed (country, bank code) is additionally looked up again through the tree's own BBAN.bank from an IBAN carrying it (R17-found; quick: one entry per country plus every all-zero / all-nine code, thorough: all keys). Static: the JSON files and the checksum package are read as data / source, the library is never imported.",
    note="Trusted: the checker's own registry loader (deep later-wins merge, v2 expansion) — C18's rules tie registry.py to it; ISO 3166 list from the installed pycountry database file; "
         "agreement with SWIFT / national sources is not decided.",
    design="3/C17"),
@@ -16,15 +16,19 @@ CHECKS = {
    technique="MRO-resolved parameter extraction + finite-domain hook tables (abstract evaluation) compared with a Bundesbank reference table",
    text="For all 39 registered German methods (and the 4 variants of 91) the effective modulus, positions, direction, weights, the summand table (digit x weight), "
         "the remainder table and the remainder->check-digit mapping are computed from the source by the abstract evaluator and compared with an independently typed reference table; "
-        "every value that can reach the comparison with an account digit is shown to be one decimal digit; writer/reader dispatch keys and the JSON field name agree. "
-        "This covers the 21 methods without any test. It decides the parameters and hook tables, not the full behaviour of the special-case rules.",
-   note="Trusted: sv/tables/bundesbank.py (typed from the Bundesbank descriptions), the abstract evaluator's library model. Special rules of 13/63, 24, 25, 68, 76 beyond parameters are not decided.",
+        "every value that can reach the comparison with an account digit is shown to be one decimal digit. Bank entry -> method is decided by evaluation: BBAN.validate_national_checksum evaluated with a registry entry "
+        "naming each registered method must consult exactly the class registered for it, and must accept without consulting anything for unlisted banks and unimplemented methods. Every method's full verdict (special rules included) is "
+        "compared with a reference verdict function on a probe family covering every position x digit and the boundaries of the special rules (quick: ~300 accounts per method, thorough: ~1500); method 91 is checked on accounts only one variant accepts. "
+        "This covers the 21 methods without any test.",
+   note="Trusted: sv/tables/bundesbank.py (typed from the Bundesbank descriptions), the abstract evaluator's library model. sv/tables/bundesbank_ref.py: the special rules of 08, 16, 23, 24, 25, 26, 61, 63, 68, 76, 88, 91, 99 are pinned to the reviewed behaviour after the repairs of DESIGN 8.3 (a later change is reported); outside the probe family their agreement is inferred.",
    design="3/C07"),
  "C06": dict(
    technique="decorator evaluation (exhaustive registration table) + abstract evaluation per country + reference-implementation agreement on a position-covering probe family",
    text="The 22 countries' registrations are derived by evaluating every register() decorator; for each country the fields read, the width of the computed digits and the possible "
         "outcomes of the BBAN-level check (True / InvalidBBANChecksum only) are decided by abstract evaluation over all structure-conforming BBANs; the algorithms' results are compared with "
-        "independent reference implementations on a probe family that varies every accepted position over its whole character class. "
+        "independent reference implementations on a probe family that varies every accepted position over its whole character class; concrete probe BBANs of both polarities go through BBAN.validate_national_checksum and must be accepted exactly when "
+        "the reference says so; the generation-side reader (compute_national_checksum) is evaluated per country and must reach the registered algorithm; the flag's effect (national validation can only reject; without the flag nothing national is consulted) "
+        "is decided in the validator model. "
         "Parameters (weights, moduli, letter maps, special results) are thereby pinned for all 22 countries, 17 of which have no test.",
    note="Trusted: sv/tables/national.py; the probe family is finite - a special case keyed on several positions at once is not decided (stated in evidence). R06-mono/R06-flag live in the validator analysis.",
    design="3/C06"),
@@ -56,13 +60,14 @@ CHECKS = {
  "C05": dict(
    technique="exception-escape analysis by exhaustive symbolic path enumeration with per-character-class summaries of helper functions; language comparison of the three entry points; defect-language check per raised class",
    text="Every path of IBAN/BIC __init__, validate, is_valid (all flags) is enumerated with its regular language; any path ending in a non-library exception is reported with a shortest witness (this found the non-ASCII-digit ValueError). "
-        "is_valid returns a bool on every path; constructor, validate and is_valid accept the same language under every valuation; each raised class is checked against the language of texts that have that defect.",
+        "is_valid returns a bool on every path; constructor, validate and is_valid accept the same language under every valuation; each raised class is checked against the language of texts that have that defect; "
+        "every national algorithm is additionally evaluated on all structure-conforming field values (abstract strings) and may only return or raise library errors.",
    note="National algorithms under validate_bban are opaque here and decided per country in C06. Message texts are not checked.",
    design="3/C05"),
  "C16": dict(
    technique="protocol conformance on the class table (method sets, __new__ arity vs modelled copy/pickle protocol) + evaluation of the comparison methods and of __deepcopy__ through the abstract evaluator",
    text="__eq__/__hash__/__lt__ are shown to be defined together and to equal the compact strings' comparison on a family of concrete pairs for all three classes; every __new__'s arity is checked against what "
-        "object.__reduce_ex__/str.__getnewargs__ supply (found BBAN); __deepcopy__ is evaluated symbolically for each class on objects built with validation off (found the re-validation and the BBAN arity error) and must restore class, text and attributes.",
+        "object.__reduce_ex__/str.__getnewargs__ supply (found BBAN); __deepcopy__ is evaluated symbolically for each class on objects built with validation off (found the re-validation and the BBAN arity error) and must restore class, text and attributes; copy.copy / copy.deepcopy / pickle round trips are evaluated through the modelled __reduce_ex__ protocol for all three classes.",
    note="The copy/pickle protocol is modelled, not executed. Comparison with foreign types follows str (library model).",
    design="3/C16"),
  "C10": dict(
@@ -80,14 +85,14 @@ CHECKS = {
  "C18": dict(
    technique="translation validation of registry.py against the stated composition: abstract evaluation over a virtual file system on a bounded-exhaustive document space, adversarial listing order",
    text="merge_dicts is evaluated on all 10 000 pairs of a document space with scalar/dict/nested/list/null conflicts (plus deeper sampled pairs) and must equal the deep later-wins merge and leave operands untouched; "
-        "get() is evaluated on virtual directories of three dict files and of list files with a v2 file, with glob returning names in non-sorted orders; build_index on empty and partially empty keys; all readers go through registry.get.",
+        "get() is evaluated on virtual directories of three dict files and of list files with a v2 file, with glob returning names in non-sorted orders and with name sets whose order differs by stem, by case and by code point; build_index on empty and partially empty keys; all readers go through registry.get.",
    note="Trusted: datamodel.py's deep_merge/expand_v2 as the statement of C18. Outside the bounded shape space the result is inferred.",
    design="3/C18"),
  "C14": dict(
    technique="effect analysis over an AST call graph with import-time / run-time phase classification (who-may-write rule) + interprocedural taint of registry data",
    text="A sufficient condition for all interleavings is decided: no function reachable at run time from the public API stores to a module global, mutates a module-level container, "
         "stores to self.<attr> of a class whose instances live in the process-wide algorithm table, or mutates data handed out by registry.get; registry.get writes only on a miss and every run-time call site passes a literal name loaded at import. "
-        "When the rule holds every call is a function of its arguments and frozen data, so threads cannot influence each other. It found the shared remainder of the German methods.",
+        "When the rule holds every call is a function of its arguments and frozen data, so threads cannot influence each other. It found the shared remainder of the German methods. Objects created once at class / module level (class attributes holding lists / dicts / iterators, mutable default arguments) are tracked by identity through the abstract evaluation of every registered algorithm: a run-time write into one is reported (R14-objects).",
    note="Assumes imports complete before threads start, pycountry's lazy load is locked, re / rstr are GIL-safe. Lock- or thread-local-based designs would need a different rule (the check would report them).",
    design="3/C14"),
  "C15": dict(
@@ -99,7 +104,7 @@ CHECKS = {
  "C12": dict(
    technique="evaluation of the lookup functions by the abstract evaluator against registry models (synthetic branch-covering registry + bundled data) compared with the statement; writer/reader agreement of index names and key order on the call sites",
    text="candidates_from_bank_code, from_bank_code, the reverse lookups and the IBAN-level bic/bank/name accessors are evaluated on a synthetic registry that exercises every branch of the selection rule and on the bundled registry "
-        "(quick: all kinds of keys via a seeded sample of 210 keys incl. multi-candidate ones and 60 BICs; thorough: all 22 753 keys and 7 769 BICs) and must equal the registry's own lists, the selection rule, invertibility and the None case.",
+        "(quick: all kinds of keys via a seeded sample of 210 keys incl. multi-candidate ones and 60 BICs; thorough: all 22 753 keys and 7 769 BICs) and must equal the registry's own lists, the selection rule, invertibility and the None case; falsy keys ('0', '00', '') and keys of other countries are included.",
    note="Indexes are built by the checker's builder from the tree's build_index call arguments (build_index itself is validated in C18). Registry contents beyond the two models are covered through branch coverage only.",
    design="3/C12"),
  "C08": dict(
@@ -110,15 +115,16 @@ CHECKS = {
    note="Placement is decided on position-revealing patterns per variant, not on all strings; exceptions are decided for all characters.",
    design="3/C08"),
  "C09": dict(
-   technique="evaluation of compute/validate agreement on a position-covering probe family + build/read-back/rebuild evaluation per country through the abstract evaluator + return-site check of BBAN.random",
-   text="For the 19 computing countries validate(fields, compute(fields)) holds and any other digit value is rejected on every probe; for all 119 countries with positions a BBAN built by from_components, read back through the accessors and rebuilt is reproduced exactly with zero filler, and passes the BBAN-level national check; BBAN.random returns only through from_components.",
+   technique="evaluation of compute/validate agreement on a position-covering probe family + build/read-back/rebuild evaluation per country through the abstract evaluator + must-pass-through check of BBAN.random by evaluation (every returned object was produced by from_components, per country, both registry modes)",
+   text="For the 19 computing countries validate(fields, compute(fields)) holds and any other digit value is rejected on every probe; for all 119 countries with positions a BBAN built by from_components, read back through the accessors and rebuilt is reproduced exactly with zero filler, and passes the BBAN-level national check; whatever BBAN.random returns was produced by from_components (evaluation with a recording wrapper, 19 countries x registry on/off).",
    note="Probe family: every accepted position varied over its class from a base vector plus seeded random fills; not all field values.",
    design="3/C09"),
  "C13": dict(
-   technique="non-determinism source scan over the call graph reachable from the random entry points (scope-aware) + abstract evaluation of BBAN.random per country with modelled Random / Rstr, pinned components checked on every returned value + return-site checks",
+   technique="non-determinism source scan over the call graph reachable from the random entry points (scope-aware) + abstract evaluation of BBAN.random per country with modelled Random / Rstr, pinned components checked on every returned value + generator discipline and validity decided by evaluation with a marked generator and a recording IBAN constructor",
    text="Every function reachable from IBAN.random/BBAN.random and the loaders that order their data are scanned for unseeded Random, module-level random functions, Rstr without the caller's generator, hash/id/time/urandom, set iteration, unsorted listings; "
         "country patterns are checked to stay inside what rstr expands through the generator; BBAN.random is evaluated abstractly for 119 countries x {bank, branch, account} x {registry, no registry} x {exact, short, leading zeros, too long}: "
-        "each returned BBAN must carry the pinned value at its published range (found the PL/SI override and the silent truncation); both random functions return only through validating constructors.",
+        "each returned BBAN must carry the pinned value at its published range (found the PL/SI override and the silent truncation); every draw on every explored path of BBAN.random / IBAN.random uses the caller's generator (marked generator; the spelling of the None fallback is irrelevant); whatever IBAN.random returns was built by the IBAN constructor with validation on; "
+        "a registry-based draw belongs to the drawn bank (R13-registry); an un-sorted() directory listing is reported only when evaluation on a virtual directory shows the result depends on listing order.",
    note="Retry loops are evaluated for two iterations; random.choice over large lists is represented by one entry per (bank-code length, has-BIC) class; 'for every seed a valid result' is decided as must-pass-through validation.",
    design="3/C13"),
 }
